@@ -40,7 +40,9 @@ def r1_no_loss(ck, F):
 
 
 def _q(b, s):
-    return [x for x, c, t in calls(b, "Try>::branch") if b.arg_exprs(x)[0].k == "call" and b.arg_exprs(x)[0].x.get("site") == s]
+    """[s] if the error of the call at s is propagated to the caller, else []"""
+    from .errflow import propagated
+    return [s] if propagated(b.facts, b, s) else []
 
 
 def r2_spill_all(ck, F):
